@@ -4,6 +4,7 @@ package main
 
 import (
 	"go/types"
+	"sort"
 	"strings"
 
 	"golang.org/x/tools/go/ssa"
@@ -333,11 +334,19 @@ func paramIndex(fn *ssa.Function, v ssa.Value) int {
 
 func (x *X) loopEffects(fr *Frame, li *loopInfo) *loopEff {
 	eff := &loopEff{}
-	for b := range li.body {
+	for _, b := range fr.fn.Blocks {
+		if !li.body[b] {
+			continue
+		}
 		for _, in := range b.Instrs {
 			x.scanInstr(fr.fn, in, eff, 0)
 		}
 	}
+	// field writes first: effects on the arrays behind slice fields refer to
+	// the (already havoced) slice headers
+	sort.SliceStable(eff.heap, func(i, j int) bool {
+		return eff.heap[i].kind == "field" && eff.heap[j].kind != "field"
+	})
 	return eff
 }
 
@@ -385,13 +394,7 @@ func (x *X) resolveBase(fr *Frame, li *loopInfo, pre *State, v ssa.Value, cells 
 	return nil, false, false
 }
 
-func (x *X) havocHeapEffect(fr *Frame, head, pre *State, h heapEff) {
-	li := (*loopInfo)(nil)
-	for l, rt := range loopRTs[fr] {
-		if rt.pre == pre || rt.pre.reach.S == pre.reach.S {
-			li = l
-		}
-	}
+func (x *X) havocHeapEffect(fr *Frame, li *loopInfo, head, pre *State, h heapEff) {
 	cells := map[*ssa.Alloc]bool{}
 	if li != nil {
 		for _, a := range x.loopEffects(fr, li).cells {
@@ -406,7 +409,7 @@ func (x *X) havocHeapEffect(fr *Frame, head, pre *State, h heapEff) {
 	}
 	switch h.kind {
 	case "all":
-		for k := range x.keys {
+		for _, k := range sortedKeys(x.keys) {
 			if strings.HasPrefix(k, "H:") || strings.HasPrefix(k, "Elems:") || strings.HasPrefix(k, "Box:") || strings.HasPrefix(k, "Map") {
 				whole(k)
 			}
